@@ -64,6 +64,7 @@ def plan(tier, seed):
     units += [("urlB", tier, i) for i in range(len(SEGS) + 1)]
     units += [("win", tier, i) for i in range(len(WIN_PREFIX))]
     units += [("stream", u) for u in streams.plan(tier, fams=STREAM_FAMS)]
+    units += core.interp_axis([("urlB", tier, len(SEGS)), ("urlB", tier, 1), ("win", tier, 0)])
     return units
 
 
